@@ -127,6 +127,7 @@ class MirFn:
     types: dict[str, str] = field(default_factory=dict)
     blocks: dict[int, Block] = field(default_factory=dict)
     text: str = ""
+    debug_order: list[tuple[str, str]] = field(default_factory=list)   # (name, local) in declaration order
 
     def local(self, name: str) -> str:
         v = self.debug.get(name)
@@ -135,7 +136,11 @@ class MirFn:
         return v[0]
 
     def names(self) -> dict[str, str]:
-        return {loc: n for n, locs in self.debug.items() for loc in locs}
+        """local -> the first (outermost) source name bound to it."""
+        out: dict[str, str] = {}
+        for n, loc in self.debug_order:
+            out.setdefault(loc, n)
+        return out
 
     def all_stmts(self):
         for b in self.blocks.values():
@@ -219,6 +224,32 @@ def _strip(a: str) -> str:
     return a
 
 
+def _parse_call(s: str) -> tuple[str | None, str, str] | None:
+    """`[dest = ]callee(args) -> [return: bbN, ...]` with a callee that may itself contain parentheses."""
+    i = s.find(") -> [return: bb")
+    if i < 0:
+        return None
+    head = s[:i + 1]
+    depth = 0
+    j = len(head) - 1
+    while j >= 0:
+        if head[j] == ")":
+            depth += 1
+        elif head[j] == "(":
+            depth -= 1
+            if depth == 0:
+                break
+        j -= 1
+    if j <= 0:
+        return None
+    pre, args = head[:j], head[j + 1:-1]
+    dest = None
+    m = re.match(r"^(_\d+|\(.*?\)) = (.*)$", pre)
+    if m:
+        dest, pre = m.group(1), m.group(2)
+    return dest, pre, args
+
+
 def _parse_stmt(line: str) -> Stmt:
     raw = line
     m = re.match(r"^(\S.*?) = (.*);$", line)
@@ -271,6 +302,7 @@ def parse(text: str) -> dict[str, MirFn]:
         md = re.match(r"^debug (\w+) => (_\d+)", s)
         if md:
             cur.debug.setdefault(md.group(1), []).append(md.group(2))
+            cur.debug_order.append((md.group(1), md.group(2)))
         ml = re.match(r"^let (?:mut )?(_\d+): (.+);$", s)
         if ml:
             cur.types[ml.group(1)] = ml.group(2)
@@ -297,10 +329,10 @@ def parse(text: str) -> dict[str, MirFn]:
                             k, v = part.strip().split(":")
                             targets[k.strip()] = int(v.strip()[2:])
                         blk.switch = (_strip(sw.group(1)), targets)
-                    mcall = re.match(r"^(?:(\S.*?) = )?(.+?)\((.*)\) -> \[return: bb\d+", s)
+                    mcall = _parse_call(s)
                     if mcall and not s.startswith(("switchInt", "assert", "drop", "goto")):
-                        blk.stmts.append(Stmt(mcall.group(1), "call", [_strip(a) for a in _split_args(mcall.group(3))],
-                                              s, callee=mcall.group(2)))
+                        blk.stmts.append(Stmt(mcall[0], "call", [_strip(a) for a in _split_args(mcall[2])],
+                                              s, callee=mcall[1]))
                     elif s.startswith("assert("):
                         blk.stmts.append(Stmt(None, "assert", [s], s))
                 else:
